@@ -101,6 +101,8 @@ def instances(tier):
     I = Instance
     out = [
         I("reach:pref-1high", "make_pref", (1, False, None, True), "reachability twin", budget_s=60, validate_every=0),
+        I("pref-0high-ownbounds", "make_pref", (0, True), "a single actor with a preference and its own bounds (which apply to lower priorities only)",
+          budget_s=200, validate_every=20),
         I("pref-1high", "make_pref", (1, False), "1 bound-setter (any None pattern) above 1 preference", budget_s=300, validate_every=100),
         I("pref-1high-empty-top", "make_pref", (1, False, "top"), "+ empty proposal with the highest priority", budget_s=200, validate_every=100),
         I("pref-1high-empty-mid", "make_pref", (1, False, "mid"), "+ empty proposal between the two", budget_s=200, validate_every=100),
